@@ -1,4 +1,8 @@
 import Pyunicorn.Lemmas.Circuit
+import Pyunicorn.Lemmas.CircuitPinv
+import Pyunicorn.Lemmas.CircuitLaws
+import Pyunicorn.Lemmas.CircuitConn
+import Pyunicorn.Generated.ArithC18
 /-! # C18 — Resistive-network quantities obey circuit laws
 
 Model: `Pyunicorn/Model/Circuit.lean` (`ResNetwork` in exact rational arithmetic).
@@ -8,19 +12,34 @@ Model: `Pyunicorn/Model/Circuit.lean` (`ResNetwork` in exact rational arithmetic
 The executable model returns a pseudo-inverse / potentials only with an exact certificate of
 these identities, and the harness checks them numerically on `get_R()` in every case.
 
-Clauses of the property and where they are proved:
+Clauses of the property and where they are proved (round 2: at full strength — for every
+cut-connected resistor network and *every* `R` with `L R L = L`, no further hypothesis):
 
-* metric that vanishes only between identical nodes — `effRes_symm`, `effRes_self`,
-  `effRes_nonneg`, `effRes_eq_zero_iff`, `triangle` (on cut-connected networks, through the maximum
-  principle; `triangle_partial` is the superposition step)
-* scales linearly with all resistances            — `effRes_scaling`
-* never exceeds the resistance of a connecting path — `effRes_le_link`, `path_bound`
-* series and parallel laws                          — `series_law`, `parallel_law`
-* Foster's theorem                                  — `foster_partial` (for every `R` with
-  `L R = I − J/n`; that `pinv` of a *connected* network has this property is not proved)
+* metric that vanishes only between identical nodes — `effRes_metric` (zero diagonal, symmetry,
+  strict positivity, triangle inequality); building blocks `effRes_symm`, `effRes_self`,
+  `effRes_nonneg`, `effRes_eq_zero_iff`, `triangle`, `triangle_partial`
+* scales linearly with all resistances            — `effRes_scaling_connected` (`effRes_scaling`)
+* never exceeds the resistance of a connecting path — `path_bound_connected`,
+  `effRes_le_link_connected` (`path_bound`, `effRes_le_link`)
+* series and parallel laws — `series_law_chain` (chains of any length, any two nodes),
+  `parallel_law_bundle` (any number of two-link branches, with or without a direct link);
+  `series_law`, `parallel_law` are the three-node instances
+* Foster's theorem — `foster` (sum over links = N − 1); `foster_partial` is the ordered-pair form
+  for `R` with `L R = I − J/N`
+* what is assumed of `np.linalg.pinv` — only `L R L = L`; `exists_inverse_and_potentials` shows
+  such inverses and node potentials exist on every connected network, `effRes_ginv_unique` that
+  the value does not depend on which one is stored, `pinv_is_proj` that a matrix with the first
+  and third Moore–Penrose equations satisfies `L R = I − J/N`
+* `CutConnected` is implied by the model's executable test — `bfs_connected_sound`
 * betweenness / degree / clustering = defining sums — `vcfbKernel_eq_sum`, `ecfbKernel_eq_sum`,
-  `nodeCurrent_eq_potential`, `admDegree_eq_sum`, `degree_eq_card`, `localClustering_eq_sum`
-* all follow a change of the resistances            — `history_fresh`
+  `nodeCurrent_eq_potential`, `admDegree_eq_sum`, `degree_is_card`, `localClustering_eq_sum`,
+  `anad_eq_sum`, `globalClustering_eq_mean`, `admDegree_scaling`
+* model arithmetic = source arithmetic (regenerated every run) — `effRes_matches_source`,
+  `averageOf_matches_source`, `ercc_matches_source`, `localClustering_matches_source`
+* all follow a change of the resistances — `history_fresh` over `update_resistances`,
+  `update_admittance`, `update_R` and 15 queries (effective resistance, average, diameter,
+  closeness, vertex / edge betweenness, admittive degree, neighbours' degree, local / global
+  clustering, `get_R`, `get_admittance`, Laplacian, the mean printed by `__str__`)
 -/
 namespace Pyunicorn.Circuit
 open Finset
@@ -238,6 +257,161 @@ theorem path_bound (n : Nat) (adj : Adj) (res R : Mat) (hN : IsNetwork n adj res
     simp only [pathRes]
     linarith
 
+/-! ## round 2: connected networks, every generalised inverse — no hypothesis left to discharge
+
+On a cut-connected resistor network an `R₀` with `L R₀ = I − J/n` *exists* (`exists_proj`), so node
+potentials exist for every pair, and `effective_resistance` computed from *any* `R` with
+`L R L = L` (first Moore–Penrose equation — all the theorems use of `np.linalg.pinv`) equals the
+potential drop.  All circuit laws therefore hold for whatever generalised inverse `update_R`
+stored. -/
+
+/-- **Existence** of the projection-type inverse, of a generalised inverse and of node potentials
+for every pair, on every connected resistor network. -/
+theorem exists_inverse_and_potentials (n : Nat) (adj : Adj) (res : Mat) (hN : IsNetwork n adj res)
+    (hconn : CutConnected n (admittance adj res)) :
+    ∃ R₀ : Mat, IsProj n (laplacian n (admittance adj res)) R₀
+      ∧ IsGinv n (laplacian n (admittance adj res)) R₀
+      ∧ ∀ a b, a < n → b < n →
+          IsPot n (laplacian n (admittance adj res)) (fun i => R₀ i a - R₀ i b) a b := by
+  obtain ⟨R₀, hp⟩ := exists_proj n _ (adm_symm hN) (adm_nonneg hN) hconn
+  exact ⟨R₀, hp, ginv_of_proj n _ R₀ hp, fun a b ha hb => pot_of_proj n _ R₀ a b ha hb hp⟩
+
+/-- **The value does not depend on the generalised inverse**: two matrices with `L R L = L`
+give the same effective resistances on a connected network. -/
+theorem effRes_ginv_unique (n : Nat) (adj : Adj) (res R R' : Mat) (a b : Nat) (ha : a < n)
+    (hb : b < n) (hN : IsNetwork n adj res) (hconn : CutConnected n (admittance adj res))
+    (hg : IsGinv n (laplacian n (admittance adj res)) R)
+    (hg' : IsGinv n (laplacian n (admittance adj res)) R') : effRes R a b = effRes R' a b := by
+  obtain ⟨R₀, _, _, hpot⟩ := exists_inverse_and_potentials n adj res hN hconn
+  have hs := lap_symm (adm_symm hN)
+  rw [effRes_eq_drop n _ R _ a b ha hb hs hg (hpot a b ha hb),
+    effRes_eq_drop n _ R' _ a b ha hb hs hg' (hpot a b ha hb)]
+
+/-- **`np.linalg.pinv` of a connected network satisfies `L R = I − J/N`**: any `R` with the first
+and third Moore–Penrose equations (`L R L = L`, `L R` symmetric).  This discharges the hypothesis
+`IsProj` of `foster_partial`, `triangle`, `path_bound` for the matrix stored by `update_R`. -/
+theorem pinv_is_proj (n : Nat) (adj : Adj) (res R : Mat) (hN : IsNetwork n adj res)
+    (hconn : CutConnected n (admittance adj res))
+    (hR : IsPinv13 n (laplacian n (admittance adj res)) R) :
+    IsProj n (laplacian n (admittance adj res)) R :=
+  proj_of_pinv13 n _ R (adm_symm hN) (adm_nonneg hN) hconn hR
+
+/-- **Metric** (full strength): on a connected resistor network, for every generalised inverse,
+the effective resistance is zero on the diagonal, symmetric, strictly positive off the diagonal
+and satisfies the triangle inequality. -/
+theorem effRes_metric (n : Nat) (adj : Adj) (res R : Mat) (hN : IsNetwork n adj res)
+    (hconn : CutConnected n (admittance adj res))
+    (hg : IsGinv n (laplacian n (admittance adj res)) R) :
+    (∀ a, effRes R a a = 0) ∧ (∀ a b, effRes R a b = effRes R b a)
+      ∧ (∀ a b, a < n → b < n → a ≠ b → 0 < effRes R a b)
+      ∧ (∀ a b c, a < n → b < n → c < n → effRes R a c ≤ effRes R a b + effRes R b c) := by
+  obtain ⟨R₀, hp, hg₀, hpot⟩ := exists_inverse_and_potentials n adj res hN hconn
+  refine ⟨effRes_self R, effRes_symm R, ?_, ?_⟩
+  · intro a b ha hb hab
+    have h0 := effRes_nonneg n adj res R _ a b ha hb hN hg (hpot a b ha hb)
+    have hz := effRes_eq_zero_iff n adj res R _ a b ha hb hN hg (hpot a b ha hb)
+    exact lt_of_le_of_ne h0 fun e => hab (hz.mp e.symm)
+  · intro a b c ha hb hc
+    rw [effRes_ginv_unique n adj res R R₀ a c ha hc hN hconn hg hg₀,
+      effRes_ginv_unique n adj res R R₀ a b ha hb hN hconn hg hg₀,
+      effRes_ginv_unique n adj res R R₀ b c hb hc hN hconn hg hg₀]
+    exact triangle n adj res R₀ a b c ha hb hc hN hconn hp
+
+/-- **Linear scaling** (full strength): connected network, `k > 0`, whatever generalised inverses
+are stored before and after `update_resistances(k * res)`. -/
+theorem effRes_scaling_connected (n : Nat) (adj : Adj) (res R R' : Mat) (k : Rat) (hk : k ≠ 0)
+    (a b : Nat) (ha : a < n) (hb : b < n) (hN : IsNetwork n adj res)
+    (hconn : CutConnected n (admittance adj res))
+    (hg : IsGinv n (laplacian n (admittance adj res)) R)
+    (hg' : IsGinv n (laplacian n (admittance adj fun i j => k * res i j)) R') :
+    effRes R' a b = k * effRes R a b := by
+  obtain ⟨R₀, _, _, hpot⟩ := exists_inverse_and_potentials n adj res hN hconn
+  exact effRes_scaling n adj res R R' _ k hk a b ha hb hN hg hg' (hpot a b ha hb)
+
+/-- **Path bound** (full strength): for every generalised inverse and every connecting path. -/
+theorem path_bound_connected (n : Nat) (adj : Adj) (res R : Mat) (hN : IsNetwork n adj res)
+    (hconn : CutConnected n (admittance adj res))
+    (hg : IsGinv n (laplacian n (admittance adj res)) R) (t : List Nat) (a : Nat)
+    (hpath : IsPath n adj (a :: t)) :
+    effRes R a ((a :: t).getLast (by simp)) ≤ pathRes res (a :: t) := by
+  obtain ⟨R₀, hp, hg₀, _⟩ := exists_inverse_and_potentials n adj res hN hconn
+  have ha : a < n := by
+    cases t with
+    | nil => exact hpath
+    | cons _ _ => exact hpath.1
+  have hlast : ∀ (t : List Nat) (a : Nat), IsPath n adj (a :: t) → (a :: t).getLast (by simp) < n := by
+    intro t
+    induction t with
+    | nil => intro a h; exact h
+    | cons b t ih =>
+      intro a h
+      have : (a :: b :: t).getLast (by simp) = (b :: t).getLast (by simp) := by
+        simp [List.getLast_cons]
+      rw [this]
+      exact ih b h.2.2
+  rw [effRes_ginv_unique n adj res R R₀ a _ ha (hlast t a hpath) hN hconn hg hg₀]
+  exact path_bound n adj res R₀ hN hconn hp t a hpath
+
+/-- **Foster's theorem** (full strength): on a connected resistor network with `N` nodes, for
+every generalised inverse, the sum over the links `{i, j}` (`j < i`) of effective resistance times
+conductance is `N − 1`. -/
+theorem foster (n : Nat) (hn : 0 < n) (adj : Adj) (res R : Mat) (hN : IsNetwork n adj res)
+    (hconn : CutConnected n (admittance adj res))
+    (hg : IsGinv n (laplacian n (admittance adj res)) R) :
+    ∑ i ∈ range n, ∑ j ∈ range i, admittance adj res i j * effRes R i j = (n : Rat) - 1 := by
+  obtain ⟨R₀, hp, hg₀, _⟩ := exists_inverse_and_potentials n adj res hN hconn
+  have hord := foster_partial n hn adj res R₀ hN hp
+  have hsym : ∀ i j, i < n → j < n →
+      admittance adj res i j * effRes R₀ i j = admittance adj res j i * effRes R₀ j i := by
+    intro i j hi hj
+    rw [adm_symm hN i j hi hj, effRes_symm]
+  rw [sum_ordered_eq_two_lower _ n hsym (fun i _ => by rw [effRes_self, mul_zero])] at hord
+  have : ∑ i ∈ range n, ∑ j ∈ range i, admittance adj res i j * effRes R i j
+      = ∑ i ∈ range n, ∑ j ∈ range i, admittance adj res i j * effRes R₀ i j := by
+    refine Finset.sum_congr rfl fun i hi => Finset.sum_congr rfl fun j hj => ?_
+    have hi' := Finset.mem_range.mp hi
+    have hj' : j < n := by have := Finset.mem_range.mp hj; omega
+    rw [effRes_ginv_unique n adj res R R₀ i j hi' hj' hN hconn hg hg₀]
+  rw [this]
+  linarith
+
+/-- **A link bounds the effective resistance** (full strength, no potential hypothesis). -/
+theorem effRes_le_link_connected (n : Nat) (adj : Adj) (res R : Mat) (a b : Nat) (ha : a < n)
+    (hb : b < n) (hab : a ≠ b) (hlink : adj a b = true) (hN : IsNetwork n adj res)
+    (hconn : CutConnected n (admittance adj res))
+    (hg : IsGinv n (laplacian n (admittance adj res)) R) : effRes R a b ≤ res a b := by
+  obtain ⟨R₀, _, _, hpot⟩ := exists_inverse_and_potentials n adj res hN hconn
+  exact effRes_le_link n adj res R _ a b ha hb hab hlink hN hg (hpot a b ha hb)
+
+/-- **Series law for chains of any length**: on the chain `0 — 1 — … — (n−1)` the effective
+resistance between `a ≤ b` is the sum of the resistances of the links between them. -/
+theorem series_law_chain (n : Nat) (res R : Mat) (a b : Nat) (hab : a ≤ b) (hb : b < n)
+    (hN : IsNetwork n chainAdj res) (hg : IsGinv n (laplacian n (admittance chainAdj res)) R) :
+    effRes R a b = ∑ k ∈ Finset.Ico a b, res k (k + 1) := by
+  rw [effRes_eq_drop n _ R _ a b (by omega) hb (lap_symm (adm_symm hN)) hg
+    (chain_isPot n res a b hab hb hN)]
+  exact chainPot_drop res a b hab
+
+/-- **Parallel law for bundles of any width**: `n − 2` two-link branches `0 — m — 1` (each a
+series connection `res 0 m + res m 1`) and optionally the direct link `0 — 1`: conductances add. -/
+theorem parallel_law_bundle (n : Nat) (direct : Bool) (res R : Mat)
+    (hne : (direct = true ∧ 2 ≤ n) ∨ 3 ≤ n)
+    (hN : IsNetwork n (bundleAdj direct) res)
+    (hg : IsGinv n (laplacian n (admittance (bundleAdj direct) res)) R) :
+    effRes R 0 1
+      = 1 / ((if direct then 1 / res 0 1 else 0) + ∑ m ∈ Finset.Ico 2 n, 1 / (res 0 m + res m 1)) := by
+  have hn : 2 ≤ n := by omega
+  have hG := ne_of_gt (bundleG_pos n direct res hN hne)
+  rw [effRes_eq_drop n _ R _ 0 1 (by omega) (by omega) (lap_symm (adm_symm hN)) hg
+    (bundle_isPot n hn direct res hN hG)]
+  exact bundlePot_drop n direct res
+
+/-- **The model's connectivity test is sound** for the hypothesis `CutConnected` of the theorems
+(the driver refuses an input exactly when `connected` is false). -/
+theorem bfs_connected_sound (n : Nat) (adj : Adj) (res : Mat) (hN : IsNetwork n adj res)
+    (h : connected n adj = true) : CutConnected n (admittance adj res) :=
+  connected_sound n adj res hN h
+
 /-! ## current-flow betweenness: the C loops are the defining sums -/
 
 /-- current through node `i` for the pair `(s,t)` -/
@@ -297,6 +471,36 @@ theorem nodeCurrent_eq_potential (n : Nat) (adm R : Mat) (i s t : Nat) :
   congr 2
   ring
 
+/-- betweenness does not change when all resistances are multiplied by `k > 0` (admittances
+`÷ k`, pseudo-inverse `× k`) -/
+theorem vcfb_scaling_invariant (n : Nat) (Is It : Rat) (adm R : Mat) (k : Rat) (hk : 0 < k) (i : Nat) :
+    vcfbKernel n Is It (fun a b => (1 / k) * adm a b) (fun a b => k * R a b) i
+      = vcfbKernel n Is It adm R i := by
+  rw [vcfbKernel_eq_sum, vcfbKernel_eq_sum]
+  congr 1
+  refine Finset.sum_congr rfl fun t _ => Finset.sum_congr rfl fun s _ => ?_
+  split
+  · rfl
+  · unfold nodeCurrent
+    congr 1
+    refine Finset.sum_congr rfl fun j _ => ?_
+    have : Is * (k * R i s - k * R j s) + It * (k * R j t - k * R i t)
+        = k * (Is * (R i s - R j s) + It * (R j t - R i t)) := by ring
+    rw [this, abs_mul, abs_of_pos hk]
+    field_simp
+
+theorem ecfb_scaling_invariant (n : Nat) (Is It : Rat) (adm R : Mat) (k : Rat) (hk : 0 < k)
+    (i j : Nat) :
+    ecfbKernel n Is It (fun a b => (1 / k) * adm a b) (fun a b => k * R a b) i j
+      = ecfbKernel n Is It adm R i j := by
+  rw [ecfbKernel_eq_sum, ecfbKernel_eq_sum]
+  congr 1
+  refine Finset.sum_congr rfl fun t _ => Finset.sum_congr rfl fun s _ => ?_
+  have : Is * (k * R i s - k * R j s) + It * (k * R j t - k * R i t)
+      = k * (Is * (R i s - R j s) + It * (R j t - R i t)) := by ring
+  rw [this, abs_mul, abs_of_pos hk]
+  field_simp
+
 /-! ## admittive degree and clustering -/
 
 theorem admDegree_eq_sum (n : Nat) (adm : Mat) (i : Nat)
@@ -324,6 +528,123 @@ theorem localClustering_eq_sum (n : Nat) (adj : Adj) (adm : Mat) (i : Nat) :
     rw [foldl_add_range]
 
 
+theorem anad_eq_sum (n : Nat) (adj : Adj) (adm : Mat) (i : Nat) :
+    anad n adj adm i
+      = (∑ j ∈ range n, (if adj i j then admDegree n adm j else 0)) / admDegree n adm i := by
+  unfold anad
+  rw [sumTo_eq]
+  congr 1
+  refine Finset.sum_congr rfl fun j _ => ?_
+  unfold b2r
+  split <;> simp
+
+theorem globalClustering_eq_mean (n : Nat) (adj : Adj) (adm : Mat) :
+    globalClustering n adj adm = (∑ i ∈ range n, localClustering n adj adm i) / (n : Rat) := by
+  unfold globalClustering
+  rw [sumTo_eq]
+
+/-- admittive degree scales inversely with the resistances -/
+theorem admDegree_scaling (n : Nat) (adj : Adj) (res : Mat) (k : Rat) (i : Nat) :
+    admDegree n (admittance adj fun i j => k * res i j) i
+      = (1 / k) * admDegree n (admittance adj res) i := by
+  unfold admDegree colSum
+  rw [sumTo_eq, sumTo_eq, Finset.mul_sum]
+  exact Finset.sum_congr rfl fun j _ => admittance_scale adj res k j i
+
+/-! ## complex impedances (any field)
+
+`ResNetwork` accepts complex resistances (`flagComplex`); the executable model is rational, but the
+algebra behind `effective_resistance` does not use the order of ℚ.  Stated on Mathlib matrices
+over an arbitrary field `K` (ℂ for impedances): the value computed from any generalised inverse
+is the potential drop of a unit current, and it scales linearly with a common (complex) factor of
+all impedances.  (Positivity, triangle inequality and path bound are statements about real
+resistances only.) -/
+section anyField
+open Matrix
+variable {K : Type} [Field K] {n : Nat}
+
+theorem impedance_eq_potential_drop (L R : Matrix (Fin n) (Fin n) K) (hL : Lᵀ = L)
+    (hg : L * R * L = L) (v : Fin n → K) (a b : Fin n)
+    (hv : L *ᵥ v = Pi.single a 1 - Pi.single b 1) :
+    R a a - R a b - R b a + R b b = v a - v b := by
+  have h := ginv_quadform L R hL hg v _ hv
+  rwa [quad_single, dot_single] at h
+
+theorem impedance_scaling (L R R' : Matrix (Fin n) (Fin n) K) (k : K) (hk : k ≠ 0) (hL : Lᵀ = L)
+    (hg : L * R * L = L) (hg' : (k⁻¹ • L) * R' * (k⁻¹ • L) = k⁻¹ • L) (v : Fin n → K) (a b : Fin n)
+    (hv : L *ᵥ v = Pi.single a 1 - Pi.single b 1) :
+    R' a a - R' a b - R' b a + R' b b = k * (R a a - R a b - R b a + R b b) := by
+  have hv' : (k⁻¹ • L) *ᵥ (k • v) = Pi.single a 1 - Pi.single b 1 := by
+    rw [Matrix.smul_mulVec, Matrix.mulVec_smul, smul_smul, inv_mul_cancel₀ hk, one_smul, hv]
+  have hL' : (k⁻¹ • L)ᵀ = k⁻¹ • L := by rw [Matrix.transpose_smul, hL]
+  rw [impedance_eq_potential_drop _ R' hL' hg' _ a b hv', impedance_eq_potential_drop L R hL hg v a b hv]
+  simp only [Pi.smul_apply, smul_eq_mul]
+  ring
+
+/-- non-vacuity over ℚ(i)-like fields is the rational case: the two-node network `L = [[1,-1],[-1,1]]`
+with `R = L/4` -/
+example : (!![(1 : ℚ)/4, -1/4; -1/4, 1/4]) 0 0 - (!![(1 : ℚ)/4, -1/4; -1/4, 1/4]) 0 1
+    - (!![(1 : ℚ)/4, -1/4; -1/4, 1/4]) 1 0 + (!![(1 : ℚ)/4, -1/4; -1/4, 1/4]) 1 1
+    = (![1, 0] : Fin 2 → ℚ) 0 - (![1, 0] : Fin 2 → ℚ) 1 := by
+  refine impedance_eq_potential_drop (!![(1 : ℚ), -1; -1, 1]) _ ?_ ?_ ![1, 0] 0 1 ?_
+  · ext i j; fin_cases i <;> fin_cases j <;> rfl
+  · ext i j; fin_cases i <;> fin_cases j <;> simp [Matrix.mul_apply, Fin.sum_univ_two] <;> norm_num
+  · ext i; fin_cases i <;> simp [Matrix.mulVec, dotProduct, Fin.sum_univ_two]
+
+end anyField
+
+/-! ## the arithmetic of the model is the arithmetic of the source
+
+`Pyunicorn.Generated.ArithC18` is regenerated on every run from the current
+`resistive_network.py` by `translate/gen_arith.py` (spec `translate/arith_C18.json`): the return
+expression of `effective_resistance`, the normalisations of `average_effective_resistance` and
+the closeness centrality, and the branch condition and quotient of the clustering loop.  The
+model functions are proved equal to these generated expressions, so an edit of one of these
+source expressions breaks the build of this file. -/
+section source_tie
+open Pyunicorn.Generated.ArithC18
+
+private theorem natpair_cast (n : Nat) :
+    (((n * (n - 1) : Nat) : Rat)) = (((n : Int) * ((n : Int) - 1) : Int) : Rat) := by
+  cases n with
+  | zero => simp
+  | succ m => push_cast; simp
+
+theorem effRes_matches_source (R : Mat) (a b : Nat) :
+    effRes R a b = if a = b then 0 else effResExpr (R a a) (R a b) (R b a) (R b b) := by
+  unfold effRes effResExpr; rfl
+
+theorem averageOf_matches_source (n : Nat) (store : List Rat) :
+    averageOf n store = avgExpr (n : Int) store.sum := by
+  unfold averageOf avgExpr
+  rw [natpair_cast]
+  norm_num
+
+theorem ercc_matches_source (n : Nat) (hn : 0 < n) (R : Mat) (a : Nat) :
+    ercc n R a = erccExpr (n : Int) (sumTo n fun i => effRes R a i) := by
+  unfold ercc erccExpr
+  congr 1
+  obtain ⟨m, rfl⟩ : ∃ m, n = m + 1 := ⟨n - 1, by omega⟩
+  push_cast; simp
+
+theorem localClustering_matches_source (n : Nat) (adj : Adj) (adm : Mat) (i : Nat) :
+    localClustering n adj adm i
+      = if clusterBranch (degree n adj i : Int) = true then 0
+        else clusterExpr
+          ((List.range n).foldl (fun dummy j =>
+            (List.range n).foldl (fun dummy k => dummy + adm i j * adm i k * adm j k) dummy) 0)
+          (admDegree n adm i) (degree n adj i : Int) := by
+  unfold localClustering clusterBranch clusterExpr
+  simp only [decide_eq_true_eq]
+  have h : ((degree n adj i : Int) = 1) ↔ degree n adj i = 1 := by omega
+  by_cases h1 : degree n adj i = 1
+  · rw [if_pos h1, if_pos (h.mpr h1)]
+  · rw [if_neg h1, if_neg (fun e => h1 (h.mp e))]
+    push_cast
+    rfl
+
+end source_tie
+
 /-! ## histories of `update_resistances` and queries -/
 
 /-- the state is what `__init__` would build from the current resistances, up to a store that is
@@ -344,44 +665,56 @@ theorem fresh_init (pinv : Nat → Mat → LMat) (n : Nat) (adj : Adj) (res : Ma
     Fresh pinv (State.init pinv n adj res) := by
   constructor <;> simp [State.init, State.update]
 
+/-- one call that is not `update_resistances(r)`: the object stays fresh, keeps its resistances,
+and returns what a freshly constructed object returns -/
+theorem step_query_fresh (pinv : Nat → Mat → LMat) (s : State) (hs : Fresh pinv s) (op : Op)
+    (hop : ∀ r, op ≠ .update r) :
+    Fresh pinv (step pinv s op).1 ∧ (step pinv s op).1.n = s.n ∧ (step pinv s op).1.adj = s.adj
+      ∧ (step pinv s op).1.res = s.res
+      ∧ (step pinv s op).2 = (step pinv (State.init pinv s.n s.adj s.res) op).2 := by
+  obtain ⟨h1, h2, h3⟩ := hs
+  cases op with
+  | update r => exact absurd rfl (hop r)
+  | average =>
+    exact ⟨⟨h1, h2, Or.inr rfl⟩, rfl, rfl, rfl, by simp [step, State.init, State.update, ← h1, ← h2]⟩
+  | diameter =>
+    rcases h3 with h3 | h3
+    · refine ⟨?_, ?_, ?_, ?_, ?_⟩ <;> simp only [step, h3]
+      · exact ⟨h1, h2, Or.inr rfl⟩
+      · simp [State.init, State.update, ← h1, ← h2]
+    · refine ⟨?_, ?_, ?_, ?_, ?_⟩ <;> simp only [step, h3]
+      · exact ⟨h1, h2, Or.inr h3⟩
+      · simp [State.init, State.update, ← h1, ← h2]
+  | updAdm =>
+    refine ⟨⟨rfl, ?_, ?_⟩, rfl, rfl, rfl, rfl⟩
+    · simp only [step]; rw [← h1]; exact h2
+    · simp only [step]; exact h3
+  | updR =>
+    exact ⟨⟨h1, rfl, Or.inl rfl⟩, rfl, rfl, rfl, rfl⟩
+  | effRes a b | ercc a | vcfb i | ecfb i j | admDeg i | anad i | lclust i | gclust | getR i j
+  | getAdm i j | lap i j | meanRes =>
+    exact ⟨⟨h1, h2, h3⟩, rfl, rfl, rfl, by simp [step, State.init, State.update, ← h1, ← h2]⟩
+
 theorem run_eq_fresh (pinv : Nat → Mat → LMat) (ops : List Op) (s : State) (hs : Fresh pinv s) :
     (run pinv s ops).2 = specRun pinv s.n s.adj s.res ops := by
   induction ops generalizing s with
   | nil => simp [run, specRun]
   | cons op ops ih =>
-    obtain ⟨h1, h2, h3⟩ := hs
-    cases op with
-    | update r =>
+    by_cases hu : ∃ r, op = .update r
+    · obtain ⟨r, rfl⟩ := hu
       have hf : Fresh pinv (s.update pinv r) := by
         constructor <;> simp [State.update]
       simp only [run, step, specRun]
       rw [ih _ hf]
       simp [State.update]
-    | average =>
-      have hf : Fresh pinv { s with store := some (allPairs s.n s.R) } := ⟨h1, h2, Or.inr rfl⟩
-      simp only [run, step, specRun]
-      rw [ih _ hf]
-      simp [State.init, State.update, ← h1, ← h2]
-    | diameter =>
-      simp only [run, step, specRun]
-      rcases h3 with h3 | h3
-      · have hf : Fresh pinv { s with store := some (allPairs s.n s.R) } := ⟨h1, h2, Or.inr rfl⟩
-        rw [h3]
-        simp only
-        rw [ih _ hf]
-        simp [State.init, State.update, ← h1, ← h2]
-      · rw [h3]
-        simp only
-        rw [ih _ ⟨h1, h2, Or.inr h3⟩]
-        simp [State.init, State.update, ← h1, ← h2]
-    | effRes a b =>
-      simp only [run, step, specRun]
-      rw [ih _ ⟨h1, h2, h3⟩]
-      simp [State.init, State.update, ← h1, ← h2]
-    | ercc a =>
-      simp only [run, step, specRun]
-      rw [ih _ ⟨h1, h2, h3⟩]
-      simp [State.init, State.update, ← h1, ← h2]
+    · have hop : ∀ r, op ≠ .update r := fun r e => hu ⟨r, e⟩
+      obtain ⟨hf, hn, ha, hr, hv⟩ := step_query_fresh pinv s hs op hop
+      have hspec : specRun pinv s.n s.adj s.res (op :: ops)
+          = (step pinv (State.init pinv s.n s.adj s.res) op).2 :: specRun pinv s.n s.adj s.res ops := by
+        cases op <;> first | exact absurd rfl (hop _) | rfl
+      rw [hspec]
+      simp only [run]
+      rw [ih _ hf, hn, ha, hr, hv]
 
 /-- **Every query follows the resistances.**  For every history of `update_resistances`,
 `average_/diameter_effective_resistance`, `effective_resistance` and closeness calls on a
@@ -542,5 +875,68 @@ example : effRes chainPinv 0 2 ≤ effRes chainPinv 0 1 + effRes chainPinv 1 2 :
 example : effRes chainPinv 0 2 ≤ pathRes unitRes [0, 1, 2] :=
   path_bound 3 chainAdj unitRes chainPinv chain_network chain_conn chain_proj [1, 2] 0
     (by simp [IsPath, chainAdj])
+
+/-! ### non-vacuity of the round-2 theorems -/
+
+/-- the executable connectivity test accepts the chain, and its soundness theorem yields the
+hypothesis `CutConnected` of the theorems -/
+example : CutConnected 3 (admittance chainAdj unitRes) :=
+  bfs_connected_sound 3 chainAdj unitRes chain_network (by decide)
+
+private theorem chain_pinv13 : IsPinv13 3 (laplacian 3 (admittance chainAdj unitRes)) chainPinv := by
+  refine ⟨chain_ginv, ?_⟩
+  intro i j hi hj
+  rw [chain_proj i j hi hj, chain_proj j i hj hi]
+  by_cases e : i = j
+  · subst e; rfl
+  · have e' : ¬ j = i := fun x => e x.symm
+    simp [e, e']
+
+example : IsProj 3 (laplacian 3 (admittance chainAdj unitRes)) chainPinv :=
+  pinv_is_proj 3 chainAdj unitRes chainPinv chain_network chain_conn chain_pinv13
+
+example : 0 < effRes chainPinv 0 2 :=
+  (effRes_metric 3 chainAdj unitRes chainPinv chain_network chain_conn chain_ginv).2.2.1 0 2
+    (by omega) (by omega) (by omega)
+
+example : ∑ i ∈ range 3, ∑ j ∈ range i, admittance chainAdj unitRes i j * effRes chainPinv i j
+    = ((3 : Nat) : Rat) - 1 :=
+  foster 3 (by omega) chainAdj unitRes chainPinv chain_network chain_conn chain_ginv
+
+example : effRes chainPinv 0 2 = ∑ k ∈ Finset.Ico 0 2, unitRes k (k + 1) :=
+  series_law_chain 3 unitRes chainPinv 0 2 (by omega) (by omega) chain_network chain_ginv
+
+example : effRes chainPinv 0 2 ≤ pathRes unitRes [0, 1, 2] :=
+  path_bound_connected 3 chainAdj unitRes chainPinv chain_network chain_conn chain_ginv [1, 2] 0
+    (by simp [IsPath, chainAdj])
+
+private theorem bundle_network : IsNetwork 4 (bundleAdj true) unitRes := by
+  refine ⟨?_, fun _ _ _ _ => rfl, fun _ _ _ _ _ => by simp [unitRes]⟩
+  intro i j hi hj
+  have hi' : i = 0 ∨ i = 1 ∨ i = 2 ∨ i = 3 := by omega
+  have hj' : j = 0 ∨ j = 1 ∨ j = 2 ∨ j = 3 := by omega
+  rcases hi' with rfl | rfl | rfl | rfl <;> rcases hj' with rfl | rfl | rfl | rfl <;> decide
+
+/-- the hypotheses of the parallel law are satisfiable: a generalised inverse of the bundle with a
+direct link and two branches exists, and every one gives `1 / (1 + 1/2 + 1/2)` -/
+example : ∃ R, IsGinv 4 (laplacian 4 (admittance (bundleAdj true) unitRes)) R
+    ∧ effRes R 0 1 = 1 / (1 / 1 + ∑ _m ∈ Finset.Ico 2 4, 1 / ((1 : Rat) + 1)) := by
+  obtain ⟨R, _, hg, _⟩ := exists_inverse_and_potentials 4 (bundleAdj true) unitRes bundle_network
+    (bfs_connected_sound 4 _ unitRes bundle_network (by decide))
+  refine ⟨R, hg, ?_⟩
+  have := parallel_law_bundle 4 true unitRes R (Or.inl ⟨rfl, by omega⟩) bundle_network hg
+  simpa [unitRes] using this
+
+/-- a history through the round-2 operations: betweenness, degree and clustering queries after an
+update are answered from the new resistances -/
+example (pinv : Nat → Mat → LMat) (r₁ r₂ : Mat) :
+    (run pinv (State.init pinv 3 chainAdj r₁) [.vcfb 1, .update r₂, .vcfb 1, .admDeg 0]).2
+      = [some (vcfbKernel 3 1 1 (admittance chainAdj r₁)
+                (toFun (pinv 3 (laplacian 3 (admittance chainAdj r₁)))) 1), none,
+         some (vcfbKernel 3 1 1 (admittance chainAdj r₂)
+                (toFun (pinv 3 (laplacian 3 (admittance chainAdj r₂)))) 1),
+         some (admDegree 3 (admittance chainAdj r₂) 0)] := by
+  rw [history_fresh]
+  simp [specRun, step, State.init, State.update]
 
 end Pyunicorn.Circuit
